@@ -694,7 +694,10 @@ class Evaluator:
                 if inner and inner[0] == "next" and t[2] == "Some" and idx == 0:
                     return T("elem", inner[1], inner[2])
                 if inner and inner[0] == "try" and idx == 0:
-                    return T("okval" if t[2] == "Continue" else "residual", inner[1])
+                    src = inner[1]
+                    if t[2] == "Continue" and isinstance(src, tuple) and src and src[0] == "agg" and len(src) > 3 and src[2] in ("Ok", "Some") and src[3]:
+                        return src[3][0]          # `?` on a freshly built Ok(x) / Some(x) is x
+                    return T("okval" if t[2] == "Continue" else "residual", src)
                 if inner and inner[0] == "agg" and inner[2] == t[2]:
                     fn = inner[4] if len(inner) > 4 else None
                     if fn and name in fn:
@@ -1475,6 +1478,10 @@ class Walker:
                 if discrs:
                     return int(discrs[idx])
                 return idx
+            # `?` on a value that was itself produced by a failed `?` (a helper's early return) fails again
+            if isinstance(pl, tuple) and pl and pl[0] == "try" and isinstance(pl[1], tuple) and pl[1] and pl[1][0] == "from_residual" and names and "Break" in names:
+                idx = names.index("Break")
+                return int(discrs[idx]) if discrs else idx
             # `?` on a freshly built Err/None (Ok/Some) breaks (continues): ControlFlow of Try::branch
             if isinstance(pl, tuple) and pl and pl[0] == "try" and isinstance(pl[1], tuple) and pl[1] and pl[1][0] == "agg" and len(pl[1]) > 2 and names:
                 want = {"Err": "Break", "None": "Break", "Ok": "Continue", "Some": "Continue"}.get(pl[1][2])
@@ -1539,7 +1546,10 @@ class Walker:
             for v, b in targets:
                 edges.append((a2, nm(v), b, ("eq", v)))
                 vals.append(nm(v))
-            if not self._is_unreachable(other):
+            covered = bool(names) and set(vals) >= set(names)
+            # (when every variant has its own edge the `otherwise` edge cannot be taken, even if it leads to live
+            # code -- the shared wildcard arm of a match with guards)
+            if not self._is_unreachable(other) and not covered:
                 edges.append((a2, ("other", tuple(vals)), other, ("other", tuple(v for v, _ in targets))))
             return edges
         if is_bool:
